@@ -130,7 +130,7 @@ def halo_class(halo, nx, ny, dx, dy):
 
 # ------------------------------------------------------------------ case kind
 @S.kind("reciprocity")
-def reciprocity(nx, ny, dx, dy, halo, modes, im, jm, level, prof, src, seed, bg, precision, pt_type="float", levels=None):
+def reciprocity(nx, ny, dx, dy, halo, modes, im, jm, level, prof, src, seed, bg, precision, pt_type="float", levels=None, qscale=1.0):
     from bldfm.solver import steady_state_transport_solver as solve
     z, profiles = make_profiles(prof)
     if not all(np.all(np.isfinite(p)) for p in profiles):
@@ -138,7 +138,9 @@ def reciprocity(nx, ny, dx, dy, halo, modes, im, jm, level, prof, src, seed, bg,
     if levels is not None:
         return reciprocity_levels(solve, z, profiles, nx, ny, dx, dy, halo, modes, im, jm, levels, src, seed, bg, precision)
     lev = level if level >= 0 else len(z) + level
-    q0 = make_source(src, ny, nx, seed)
+    # "for any surface-flux field": also fields of very small / very large magnitude (trace-gas fluxes in SI units are
+    # of order 1e-9; the identity is homogeneous in the field, every comparison below is relative)
+    q0 = make_source(src, ny, nx, seed) * qscale
     domain = (nx * dx, ny * dy)
     meas = (im * dx, jm * dy)
     # "every measurement point on the grid": the same point given as Python ints / an integer array / a float array
@@ -284,10 +286,12 @@ def generate(tier, rng):
         nz = nz_of(pk)
         level = lev if lev is not None else rng.choice([1, nz // 2, nz - 1, rng.randint(1, nz - 1)])
         im, jm = pt if pt is not None else (rng.randint(0, nx - 1), rng.randint(0, ny - 1))
-        return "reciprocity", dict(
+        d = dict(
             nx=nx, ny=ny, dx=dx, dy=dy, halo=halo, modes=modes, im=im, jm=jm, level=level,
             prof=CLOSURES[pk], src=src, seed=rng.randint(0, 2 ** 31 - 1),
-            bg=rng.choice([0.0, 0.7, 3.0]), precision=precision, **extra)
+            bg=rng.choice([0.0, 0.7, 3.0]), precision=precision)
+        d.update(extra)
+        return "reciprocity", d
 
     # systematic core: every halo kind x mode kind x precision on the design witness grid,
     # and every profile set with every halo kind
@@ -324,6 +328,10 @@ def generate(tier, rng):
                 pt = pts[k % len(pts)]
                 k += 1
                 yield case(16, 12, sp, hk, ("trunc", "at")[k % 2], (0, 3, 5)[k % 3], "random", ("double", "single")[k % 5 == 0], pt=pt, pt_type=pt_type)
+    # fields of very small and very large magnitude
+    for k, qs in enumerate((1e-9, 3e-12, 1e-20, 1e8, 1e-9, 1e-7)):
+        yield case(12, 10, k % 3, ("incomm", "none", "zero")[k % 3], ("trunc", "at")[k % 2], (0, 3, 5)[k % 3], ("random", "sparse", "smooth")[k % 3],
+                   ("double", "single")[k == 4], qscale=qs, bg=0.0)      # (a background would absorb a 1e-20 signal in floating point)
     # several output levels in one request, in any order
     for k, lv in enumerate(([3, 1, 2], [4, 0, 2], [1, 3], [2, 2, 1], [-1, 1], [2, 4, 1, 3])):
         yield case(12, 10, k % 3, ("incomm", "none", "comm", "zero")[k % 4], "trunc", (0, 2, 5)[k % 3], "sparse", "double", levels=lv)
